@@ -142,15 +142,20 @@ Definition strategy_cls (s : simplification_strategy) : StrategyCls.strategy :=
   | Fixpoint_ => StrategyCls.Fixpoint_
   end.
 
-(* passes allowed to the (unbounded) fixpoint loop of the classic portfolio, whose termination is
-   not proved (C18); for the other two portfolios [simplify_fuel] provably suffices *)
+(* passes allowed to the (unbounded) fixpoint loop of the classic portfolio: a PARAMETER [fuel] of
+   the model ([simplify_formula_fuel], ..., [run_cli_fuel]); [classic_fuel] = 64 is the executable
+   instance ([run_cli], extracted and compared with the binary).  The loop terminates
+   (C18_term_cls); Proofs/CliOk.v: a Stdout / Error / Panic answer is the same for every larger
+   fuel, and for every input there is a fuel from which OutOfFuel can only come from the parser
+   model (Cli_simplify_never_out_of_fuel).  For the other two portfolios [simplify_fuel] provably
+   suffices. *)
 Definition classic_fuel : nat := 64.
 
-Definition simplify_formula (portfolio : simplification_portfolio) (strategy : simplification_strategy)
+Definition simplify_formula_fuel (fuel : nat) (portfolio : simplification_portfolio) (strategy : simplification_strategy)
   (F : formula) : step formula :=
   match portfolio with
   | Classic =>
-      match StrategyCls.run_strategy_opt classic_fuel portfolio_classic_opt (strategy_cls strategy) F with
+      match StrategyCls.run_strategy_opt fuel portfolio_classic_opt (strategy_cls strategy) F with
       | StrategyCls.RDone G => Got G
       | StrategyCls.RPanic => Stop Panic
       | StrategyCls.RNonterminating => Stop OutOfFuel
@@ -163,14 +168,14 @@ Definition simplify_formula (portfolio : simplification_portfolio) (strategy : s
   end.
 
 (* theory.into_iter().map(..).collect() *)
-Fixpoint simplify_theory (portfolio : simplification_portfolio) (strategy : simplification_strategy)
+Fixpoint simplify_theory_fuel (fuel : nat) (portfolio : simplification_portfolio) (strategy : simplification_strategy)
   (t : theory) : step theory :=
   match t with
   | [] => Got []
   | F :: rest =>
-      match simplify_formula portfolio strategy F with
+      match simplify_formula_fuel fuel portfolio strategy F with
       | Got G =>
-          match simplify_theory portfolio strategy rest with
+          match simplify_theory_fuel fuel portfolio strategy rest with
           | Got Gs => Got (G :: Gs)
           | Stop r => Stop r
           end
@@ -178,10 +183,15 @@ Fixpoint simplify_theory (portfolio : simplification_portfolio) (strategy : simp
       end
   end.
 
-Definition run_simplify (portfolio : simplification_portfolio) (strategy : simplification_strategy)
+Definition run_simplify_fuel (fuel : nat) (portfolio : simplification_portfolio) (strategy : simplification_strategy)
   (text : string) : cli_result :=
   bind (theory_from_file text) (fun theory =>
-  bind (simplify_theory portfolio strategy theory) print_theory).
+  bind (simplify_theory_fuel fuel portfolio strategy theory) print_theory).
+
+(* the instances at the executable fuel *)
+Definition simplify_formula := simplify_formula_fuel classic_fuel.
+Definition simplify_theory := simplify_theory_fuel classic_fuel.
+Definition run_simplify := run_simplify_fuel classic_fuel.
 
 (* ------------------------------------------------------------------ Command::Translate *)
 Definition of_nresult_theory (r : nresult theory) : cli_result :=
@@ -210,12 +220,14 @@ Definition run_translate (with_ : translation) (text : string) : cli_result :=
   end.
 
 (* ------------------------------------------------------------------ main *)
-Definition run_cli (c : command) (text : string) : cli_result :=
+Definition run_cli_fuel (fuel : nat) (c : command) (text : string) : cli_result :=
   match c with
   | Analyze property => run_analyze property text
   | Parse as_ => run_parse as_ text
-  | Simplify portfolio strategy => run_simplify portfolio strategy text
+  | Simplify portfolio strategy => run_simplify_fuel fuel portfolio strategy text
   | Translate with_ => run_translate with_ text
   end.
+(* the executable instance (extracted; tied to the binary by the op cli_run) *)
+Definition run_cli : command -> string -> cli_result := run_cli_fuel classic_fuel.
 
 (* EXTRACT: run_cli command cli_result *)
